@@ -103,7 +103,9 @@ pub fn require_at_least(cov: &Cov, name: &'static str, n: u64, out: &mut Vec<Sho
 }
 pub fn require_probes(cov: &Cov, out: &mut Vec<Shortfall>) {
     for (k, v) in &cov.probes {
-        if *v == 0 {
+        // probes named obs_* depend on what the code under test answered; they are
+        // reported but never required (a changed tree must not turn into exit 2)
+        if *v == 0 && !k.starts_with("obs_") {
             out.push(Shortfall { what: format!("probe {} never hit", k) });
         }
     }
